@@ -29,6 +29,23 @@ PROTO = {'esp': 3, 'ah': 2}
 MY = [ip_address('192.168.0.1'), ip_address('2001:db8::1')]
 
 
+_OTHER = {}
+
+
+def other_keys():
+    """well-formed PEM keys that are not RSA (EC P-256, Ed25519) and an RSA key under a passphrase: (private pem, public pem)"""
+    if not _OTHER:
+        from cryptography.hazmat.primitives import serialization as S
+        from cryptography.hazmat.primitives.asymmetric import ec, ed25519, rsa
+        def pems(k, enc=S.NoEncryption()):
+            return (k.private_bytes(S.Encoding.PEM, S.PrivateFormat.PKCS8, enc).decode(),
+                    k.public_key().public_bytes(S.Encoding.PEM, S.PublicFormat.SubjectPublicKeyInfo).decode())
+        _OTHER['ec'] = pems(ec.generate_private_key(ec.SECP256R1()))
+        _OTHER['ed25519'] = pems(ed25519.Ed25519PrivateKey.generate())
+        _OTHER['rsa-encrypted'] = pems(rsa.generate_private_key(65537, 1024), S.BestAvailableEncryption(b'pw'))
+    return _OTHER
+
+
 def trs(p):
     return [(int(t.type), int(t.id), t.keylen) for t in p.transforms]
 
@@ -123,13 +140,19 @@ def gen_conn(rng, v6=False):
     me = '2001:db8::1' if v6 else '192.168.0.1'
     peer = ('2001:db8::%x' % rng.randrange(2, 200)) if v6 else ('192.168.0.%d' % rng.randrange(2, 250))
     d = {'my_addr': me, 'peer_addr': peer,
-         'my_auth': {'id': rng.choice(['alice@example.org', 'alice.example.org', '10.0.0.1', '2001:db8::77', 'a@b']), 'psk': 'secret%d' % rng.randrange(99)},
-         'peer_auth': {'id': rng.choice(['bob@example.org', 'bob.example.org', '10.0.0.2']), 'psk': 'other'}, 'protect': []}
+         'my_auth': {'id': rng.choice(['alice@example.org', 'alice.example.org', '10.0.0.1', '2001:db8::77', 'a@b', '@example.org', '@', 'alice@',
+                                  '10.0.0.256', '1.2.3', '::ffff:10.0.0.1', 'x' * rng.randrange(1, 300)]), 'psk': 'secret%d' % rng.randrange(99)},
+         'peer_auth': {'id': rng.choice(['bob@example.org', 'bob.example.org', '10.0.0.2', '@bob', 'fe80::1']), 'psk': 'other'}, 'protect': []}
     if rng.random() < 0.2:
         d['my_auth'].pop('id')
     if rng.random() < 0.3:
         d['my_auth'] = {'id': 'alice@example.org', 'privkey': W.rsa_pair('alice@example.org')[0]}
         d['peer_auth'] = {'id': 'bob@example.org', 'pubkey': W.rsa_pair('bob@example.org')[1]}
+    elif rng.random() < 0.1:
+        # a well-formed key of another kind is a credential like any other: loaded as given or refused, nothing else
+        kind = rng.choice(['ec', 'ed25519'])
+        d['my_auth'] = {'id': 'alice@example.org', 'privkey': other_keys()[kind][0]}
+        d['peer_auth'] = {'id': 'bob@example.org', 'pubkey': other_keys()[rng.choice(['ec', 'ed25519'])][1]}
 
     def pick(table, allow_int=False):
         ks = list(table)
@@ -143,9 +166,9 @@ def gen_conn(rng, v6=False):
             if key != 'dh' and not d[key] and rng.random() < 0.7:
                 d[key] = [rng.choice(list(table))]
     if rng.random() < 0.5:
-        d['lifetime'] = rng.choice([1, 60, 900, 86400, '300'])
+        d['lifetime'] = rng.choice([0, 1, 60, 900, 86400, '300', '0'])
     if rng.random() < 0.5:
-        d['dpd'] = rng.choice([5, 60, '30'])
+        d['dpd'] = rng.choice([0, 5, 60, '30', '0'])
     for _ in range(rng.randrange(1, 4)):
         e = {}
         if rng.random() < 0.7:
@@ -169,7 +192,7 @@ def gen_conn(rng, v6=False):
         if rng.random() < 0.6:
             e['index'] = rng.randrange(2 ** 20)
         if rng.random() < 0.5:
-            e['lifetime'] = rng.choice([5, 300, 3600])
+            e['lifetime'] = rng.choice([0, 5, 300, 3600, '0'])
         d['protect'].append(e)
     return d
 
@@ -190,7 +213,14 @@ def malform(rng, d):
     elif where == 'auth':
         a = d.get(rng.choice(['my_auth', 'peer_auth']))
         if isinstance(a, dict):
-            a[rng.choice(['id', 'psk', 'privkey', 'pubkey'])] = bad if rng.random() < 0.8 else 'not a pem'
+            k = rng.choice(['id', 'psk', 'privkey', 'pubkey'])
+            r = rng.random()
+            if r < 0.6 or k in ('id', 'psk'):
+                a[k] = bad if r < 0.5 else 'not a pem'
+            else:
+                # PEM that parses but is the wrong thing: public where private is expected, a passphrase-protected key, other kinds
+                kind = rng.choice(list(other_keys()))
+                a[k] = other_keys()[kind][rng.randrange(2)]
     else:
         if d.get('protect') and isinstance(d['protect'], list):
             e = rng.choice(d['protect'])
